@@ -55,6 +55,9 @@ type Walker struct {
 	opaque int
 	// Loops is the stack of enclosing loops (for rules that care).
 	Loops []ast.Stmt
+	// FuncLitDepth > 0 while the body of a function literal is being walked
+	// (its return statements are the closure's, not the function's).
+	FuncLitDepth int
 
 	boolDefs map[types.Object]boolDef // boolean locals defined from a condition: b := x == nil || y.Empty()
 
@@ -503,7 +506,9 @@ func (w *Walker) expr(e ast.Expr, f Formula) {
 		saved, savedFrames, savedCur := w.Loops, w.frames, w.cur
 		savedExit := w.OnExit
 		w.Loops, w.frames, w.OnExit = nil, nil, nil
+		w.FuncLitDepth++
 		w.block(x.Body.List, f)
+		w.FuncLitDepth--
 		// the closure may or may not have run: keep both the states before and after
 		w.Loops, w.frames, w.OnExit = saved, savedFrames, savedExit
 		w.cur |= savedCur
